@@ -9,6 +9,7 @@ import (
 	"os"
 	"path/filepath"
 	"runtime"
+	"runtime/debug"
 	"sort"
 	"strconv"
 	"strings"
@@ -75,6 +76,10 @@ type Ctx struct {
 
 	expiredFlag int32
 	skipped     int64
+	// disturbed: a parallel worker saw the library panic, or a failure did not reproduce. Both can be caused by
+	// interference between the independent values the workers use (a defect, but not of this property), so main
+	// repeats the whole check with one worker and reports that verdict
+	disturbed int32
 }
 
 func newCtx(prop, tier string) *Ctx {
@@ -236,6 +241,7 @@ func (c *Ctx) Check(eval func() *Failure) bool {
 		for i := 0; i < 5; i++ {
 			g := eval()
 			if g == nil || g.Class != f.Class {
+				atomic.StoreInt32(&c.disturbed, 1)
 				c.HarnessError("non-reproducible failure %s: %s", f.Class, f.What)
 				return false
 			}
@@ -253,7 +259,11 @@ func (c *Ctx) CheckTimed(d time.Duration, eval func() *Failure, onTimeout func()
 		return true
 	}
 	ch := make(chan *Failure, 1)
-	go func() { ch <- eval() }()
+	go func() {
+		var f *Failure
+		c.guarded("a timed evaluation", func() { f = eval() })
+		ch <- f
+	}()
 	select {
 	case f := <-ch:
 		if f == nil {
@@ -310,11 +320,64 @@ func (c *Ctx) parFor(n int64, chunk int64, fn func(lo, hi int64)) {
 				if hi > n {
 					hi = n
 				}
-				fn(lo, hi)
+				c.guarded(fmt.Sprintf("work items [%d,%d)", lo, hi), func() { fn(lo, hi) })
 			}
 		}()
 	}
 	wg.Wait()
+}
+
+// guarded runs f; a panic raised inside the library (outside any try of the check) must not take the harness
+// down. With several workers it marks the run as disturbed (main then repeats it with one worker); with one
+// worker nothing else was running, so it is a failure of the property under check. A panic in harness code is
+// re-raised (exit 2, no verdict).
+func (c *Ctx) guarded(what string, f func()) {
+	defer func() {
+		r := recover()
+		if r == nil {
+			return
+		}
+		stack := string(debug.Stack())
+		if !panicInLibrary(stack) {
+			panic(fmt.Sprintf("%v\n%s", r, stack))
+		}
+		if c.Workers > 1 {
+			atomic.StoreInt32(&c.disturbed, 1)
+			c.HarnessError("the library panicked in a parallel worker (%s): %v", what, r)
+			return
+		}
+		if len(stack) > 1500 {
+			stack = stack[:1500]
+		}
+		c.Fail(&Failure{Class: "library-panic/" + c.Prop, What: fmt.Sprintf("%s: the library panics with nothing else running: %v | %s", what, r, strings.ReplaceAll(stack, "\n", " | ")), Kind: "panic", NoRepro: true})
+	}()
+	f()
+}
+
+// panicInLibrary reports whether the innermost non-runtime frame below the panic belongs to the library.
+func panicInLibrary(stack string) bool {
+	lines := strings.Split(stack, "\n")
+	seenPanic := false
+	for _, l := range lines {
+		if strings.HasPrefix(l, "\t") {
+			continue // file:line of the frame above
+		}
+		if strings.HasPrefix(l, "panic(") {
+			seenPanic = true
+			continue
+		}
+		if !seenPanic || l == "" || strings.HasPrefix(l, "runtime.") || strings.HasPrefix(l, "goroutine ") {
+			continue
+		}
+		return strings.HasPrefix(l, "github.com/Tom-Johnston/mamba/")
+	}
+	return false
+}
+
+// unsupportedKind is what a replay function returns for a failure kind it cannot re-evaluate from its case alone
+// (aggregate comparisons, recovered panics): "cannot replay", which is neither "passes" nor "fails".
+func unsupportedKind(kind string) *Failure {
+	return &Failure{Class: "replay/unsupported-kind", What: kind}
 }
 
 func loadKnown() []knownFinding {
